@@ -62,7 +62,8 @@ class FuncCtx:
             for name, _ in self.cfg.defs_of(n):
                 self.locals.add(name)
         self.nonlocals = set()
-        for x in ast.walk(self.f.node):
+        from .cfg import walk_function
+        for x in walk_function(self.f.node):
             if isinstance(x, (ast.Nonlocal, ast.Global)):
                 self.nonlocals.update(x.names)
 
